@@ -1325,7 +1325,9 @@ def values_part(ctx, out, mb):
                                      (b"\x30\x80", [1, 1, -1], 7), (b"\x30\x80\x01", [1, 1, -2], 7),
                                      # ... in the middle of a packet body (found by the mutation sweep: EOF there was not scheduled)
                                      (b"\x30\x0a\x00\x01t", [1, 1, 3, -1], 7), (b"\x30\x0a\x00\x01txy", [1, 1, 3, -2], 7),
-                                     (b"\x30\x0a\x00\x01t", [1, 1, 1, 1, 1, -1], 7)):
+                                     (b"\x30\x0a\x00\x01t", [1, 1, 1, 1, 1, -1], 7),
+                                     # an inbound PUBLISH with the reserved QoS 3 is a protocol error (mutation sweep round 3)
+                                     (bytes([0x36, 6, 0, 1, 0x74, 0, 1, 0]), [], 2)):
                 k = Conn(ver, api)
                 k.s.inbuf += stream
                 k.s.plan.extend(plan)
